@@ -36,7 +36,7 @@ const (
 
 // Op is one operation of a history (JSON = the replay format).
 type Op struct {
-	K   string   `json:"k"`             // fund bond add redel edit withdraw unbond gov params confirm addbatch delbatch addcall delcall block
+	K   string   `json:"k"`             // fund bond add redel edit withdraw unbond gov params confirm addbatch delbatch addcall delcall slashval block
 	M   int      `json:"m"`             // module index (ignored by block)
 	A   int      `json:"a,omitempty"`   // oracle account id
 	B   int      `json:"b,omitempty"`   // bridger account id
@@ -80,7 +80,9 @@ type View struct {
 	ByE         [][2]int
 	Prop        []int
 	Power       *big.Int
-	Deleg       [][3]*big.Int // oracle, validator, tokens
+	Deleg       [][3]*big.Int // oracle, validator, SHARES (LegacyDec scaled 10^18)
+	DelegTok    [][3]*big.Int // oracle, validator, token value of those shares at the validator's rate
+	Vals        [][3]*big.Int // validator id, Tokens, DelegatorShares (scaled)
 	Ubds        [][4]*big.Int // oracle, validator, completion (s since genesis), balance
 	BalO        []*big.Int
 	BalD        []*big.Int
@@ -110,6 +112,7 @@ type modw struct {
 	token    string
 	steps    []string // Coq step terms
 	view0    string
+	vals0    string
 	initArg  string
 	nsteps   int
 	nextBat  int64
@@ -412,6 +415,31 @@ func (w *world) apply(op Op) []applied {
 			return nil
 		})
 		coqOp = fmt.Sprintf("DelBatch %d", op.N)
+	case "slashval":
+		// the staking module slashes validator V (what evidence / downtime handling does), infraction at the current height
+		amount := big.NewInt(0)
+		if op.V >= 0 && op.V < len(c.ValKeys) {
+			val, e := c.App.StakingKeeper.GetValidator(c.Ctx, w.val(op.V))
+			lib.Must(e)
+			power := val.ConsensusPower(sdk.DefaultPowerReduction)
+			frac := sdkmath.LegacyNewDecFromBigIntWithPrec(bigOf(op.Amt), 18)
+			amount = sdkmath.LegacyNewDecFromInt(sdk.TokensFromConsensusPower(power, sdk.DefaultPowerReduction)).Mul(frac).TruncateInt().BigInt()
+			cons, e := val.GetConsAddr()
+			lib.Must(e)
+			try(nil, func(ctx sdk.Context) error {
+				_, e := c.App.StakingKeeper.Slash(ctx, cons, ctx.BlockHeight(), power, frac)
+				return e
+			})
+		}
+		var res []applied
+		for i := range w.mods {
+			a := applied{mod: i, coqOp: fmt.Sprintf("SlashVal %d %s", op.V, amount), class: classOf(err)}
+			if err != nil {
+				a.err = err.Error()
+			}
+			res = append(res, a)
+		}
+		return res
 	case "addcall":
 		// like batches: the object is stored with the keeper's own setter (its construction is C05/C06 matter)
 		dest := crosschaintypes.ExternalAddrToStr(m.name, crypto.PubkeyToAddress(m.extKey[200].PublicKey).Bytes())
@@ -513,7 +541,8 @@ func (m *modw) view() *View {
 			val, err := c.App.StakingKeeper.GetValidator(ctx, mustVal(d.ValidatorAddress))
 			lib.Must(err)
 			tok := val.TokensFromShares(d.Shares).TruncateInt().BigInt()
-			ds = append(ds, [3]*big.Int{big.NewInt(int64(a)), big.NewInt(int64(m.w.valID[d.ValidatorAddress])), tok})
+			ds = append(ds, [3]*big.Int{big.NewInt(int64(a)), big.NewInt(int64(m.w.valID[d.ValidatorAddress])), d.Shares.BigInt()})
+			v.DelegTok = append(v.DelegTok, [3]*big.Int{big.NewInt(int64(a)), big.NewInt(int64(m.w.valID[d.ValidatorAddress])), tok})
 		}
 		sort.Slice(ds, func(i, j int) bool { return ds[i][1].Cmp(ds[j][1]) < 0 })
 		v.Deleg = append(v.Deleg, ds...)
@@ -526,6 +555,11 @@ func (m *modw) view() *View {
 					big.NewInt(int64(e.CompletionTime.Sub(lib.GenesisTime) / time.Second)), e.Balance.BigInt()})
 			}
 		}
+	}
+	for i, k := range c.ValKeys {
+		val, err := c.App.StakingKeeper.GetValidator(ctx, k.Val())
+		lib.Must(err)
+		v.Vals = append(v.Vals, [3]*big.Int{big.NewInt(int64(i)), val.Tokens.BigInt(), val.DelegatorShares.BigInt()})
 	}
 	for _, s := range x.Keeper.GetOracleSets(ctx) {
 		ov := objView{N: int64(s.Nonce), H: int64(s.Height)}
@@ -625,9 +659,9 @@ func (v *View) coq() string {
 	for _, b := range v.BalD {
 		bd = append(bd, b.String())
 	}
-	return fmt.Sprintf("(mkView %s %s %s %s %s %s %s %s %s %s %d %s %d %s %d)", lib.List(recs), coqPairs(v.ByB), coqPairs(v.ByE), coqInts(v.Prop),
+	return fmt.Sprintf("(mkView %s %s %s %s %s %s %s %s %s %s %d %s %d %s %d %s)", lib.List(recs), coqPairs(v.ByB), coqPairs(v.ByE), coqInts(v.Prop),
 		v.Power, coqDeleg(v.Deleg), coqUbds(v.Ubds), lib.List(bo), lib.List(bd), coqObjs(v.Sets), v.SlashedSet, coqObjs(v.Batches), v.SlashedBat,
-		coqObjs(v.Calls), v.SlashedCall)
+		coqObjs(v.Calls), v.SlashedCall, coqDeleg(v.Vals))
 }
 
 // deltas: Coq list of vdelta turning the previous observed view into this one
@@ -695,6 +729,11 @@ func (v *View) deltas(p *View) string {
 	objDelta(v.Batches, p.Batches, "DBatch", "DBatches")
 	if v.SlashedBat != p.SlashedBat {
 		ds = append(ds, fmt.Sprintf("DSlashedBat %d", v.SlashedBat))
+	}
+	for i := range v.Vals {
+		if v.Vals[i][1].Cmp(p.Vals[i][1]) != 0 || v.Vals[i][2].Cmp(p.Vals[i][2]) != 0 {
+			ds = append(ds, fmt.Sprintf("DVal (%s, %s, %s)", v.Vals[i][0], v.Vals[i][1], v.Vals[i][2]))
+		}
 	}
 	objDelta(v.Calls, p.Calls, "DCall", "DCalls")
 	if v.SlashedCall != p.SlashedCall {
